@@ -55,3 +55,15 @@ Theorem C29_roundtrip :
   unmarshal wire_dec_command wire_dec_body gunzip (marshal wire_enc_command wire_enc_body gzip cfg b) = Some b.
 Proof. exact roundtrip_wire. Qed.
 Print Assumptions C29_roundtrip.
+
+(* Marshalling several requests before any result is used: every result is the one for its own request and decodes
+   to it (the model's marshal is a function; the driver's held / concurrent cases tie the implementation to that). *)
+Theorem C29_marshal_results_independent :
+  forall (gzip : bytes -> bytes) (gunzip : bytes -> option bytes),
+  (forall b, gunzip (gzip b) = Some b) ->
+  forall cfg bs, Forall wf_body bs ->
+  (forall i, nth_error (marshal_all wire_enc_command wire_enc_body gzip cfg bs) i
+             = option_map (marshal wire_enc_command wire_enc_body gzip cfg) (nth_error bs i)) /\
+  map (unmarshal wire_dec_command wire_dec_body gunzip) (marshal_all wire_enc_command wire_enc_body gzip cfg bs) = map Some bs.
+Proof. exact marshal_results_independent. Qed.
+Print Assumptions C29_marshal_results_independent.
